@@ -86,6 +86,11 @@ def check(stats, m, var, route, envs, as_object=False, rat_points=None, second=N
                      points=[M.point_to_json(e) for e in envs],
                      rat_points=[[[k, str(v)] for k, v in rp.items()] for rp in (rat_points or [])], second=second)
     where = f"{route} for d/d{var} of {M.text(m)[:300]}"
+    if constant_out_of_range(m):
+        # a variable-free sub-tree whose exact value leaves the double range (e.g. (1/1.5e-252)/1.5e-252): every point is
+        # outside the property's scope, and folding it produces inf / OverflowError / math domain errors
+        stats.count("constant-subtree-out-of-range")
+        return
     out = lib.call(lambda: DV.run_symbolic(route, m, var, as_object))
     if out.kind == lib.OVF:
         stats.count("fold-overflow")
@@ -184,6 +189,25 @@ def second_order_failure(stats, m, var, sm, s, penv, w):
         return (f"Partial(returned expression, {w}).at gives {got.value!r}, reference derivative of the returned "
                 f"expression is {o2.D} (error/bound {ratio:.3g})")
     return None
+
+
+def constant_out_of_range(m):
+    seen = set()
+    bad = [False]
+
+    def go(x):
+        if bad[0] or id(x) in seen or x[0] in M.LEAVES:
+            return
+        seen.add(id(x))
+        if not M.variables(x):
+            r, _ = RE.evaluate(x, {}, lo=1e-290, hi=1e290)
+            if r.st == RE.RANGE:
+                bad[0] = True
+            return
+        for c in M.children(x):
+            go(c)
+    go(m)
+    return bad[0]
 
 
 def fold_conditioning(m):
